@@ -21,11 +21,11 @@ namespace {
 
 enum OpKind : uint16_t {
   kAlloc, kRelease, kShrink, kQueryLive, kQueryForeign, kQueryReleased, kReleaseForeign, kWrite, kWriteFn, kBadWrite, kStats,
-  kReset, kRecreate, kReallocSame, kReleaseAll, kOpCount
+  kReset, kRecreate, kReallocSame, kReleaseAll, kFillTail, kOpCount
 };
 const char* const kOpNames[kOpCount] = {
   "alloc", "release", "shrink", "query_live", "query_foreign", "query_released", "release_foreign", "write", "write_fn", "bad_write", "stats",
-  "reset", "recreate", "realloc_same", "release_all"
+  "reset", "recreate", "realloc_same", "release_all", "fill_tail"
 };
 const char* op_name(uint16_t k) { return k < kOpCount ? kOpNames[k] : "?"; }
 
@@ -90,8 +90,30 @@ void drop_held(World& w, size_t i) {
   w.held.erase(w.held.begin() + long(i));
 }
 
+// Whether some existing block still has `size` bytes (rounded up to the granularity) of contiguous memory outside of every
+// live span and of the initial padding: released or shrunk-away memory is reusable, so such a request needs no new block.
+// (Single-pool allocators only: with several pools the request is served by the pool its size selects.)
+static bool fits_in_existing_block(World& w, size_t size) {
+  const jitmodel::Cfg& cfg = w.model.cfg;
+  if (cfg.pool_count != 1 || size == 0) return false;
+  size_t g = cfg.granularity, need = (size + g - 1) / g * g;
+  for (auto& kv : w.model.blocks) {
+    const jitmodel::Block& b = kv.second;
+    uintptr_t cursor = b.rx + (b.padding_known ? (b.padding + g - 1) / g * g : (cfg.padding ? g : 0)), end = b.rx + b.size;
+    for (auto it = w.model.live.lower_bound(b.rx); it != w.model.live.end() && it->first < end; ++it) {
+      if (it->first > cursor && it->first - cursor >= need) return true;
+      uintptr_t span_end = it->first + (it->second.size + g - 1) / g * g;
+      if (span_end > cursor) cursor = span_end;
+    }
+    if (end > cursor && end - cursor >= need) return true;
+  }
+  return false;
+}
+
 void do_alloc(World& w, size_t size, bool via_write) {
   JitAllocator::Span span;
+  bool fitted = fits_in_existing_block(w, size);
+  uint64_t created_before = w.model.blocks_created, fired_before = sim::run_faults_fired_total();
   size_t maps_before = sim::vm::mappings_this_run().size();
   size_t live_before = w.model.live.size();
   Error err = w.alloc->alloc(Out(span), size);
@@ -114,6 +136,11 @@ void do_alloc(World& w, size_t size, bool via_write) {
   uint64_t stamp = (w.stamp_counter++) << 32;
   w.model.alloc_ok(size, span, stamp);
   jitmodel::SpanInfo& info = w.model.live[uintptr_t(span.rx())];
+  if (fitted) {
+    sim::count("c09.probe.request_fits_existing_block");
+    if (sim::run_faults_fired_total() == fired_before)
+      SIM_CHECK(w.model.blocks_created == created_before, "c09:released-memory-not-reused", "alloc(%zu) mapped a new block although an existing block had that much contiguous free memory (released or shrunk-away memory was not found again)", size);
+  }
   if (via_write) {
     // fill through the allocator's write API in pieces
     std::vector<uint8_t> img(info.size, 0);
@@ -185,6 +212,26 @@ void exec_op(World& w, const Op& op) {
     }
     case kRelease: if (!w.held.empty()) do_release(w, held_index(w, op.a[0])); break;
     case kReleaseAll: while (!w.held.empty()) do_release(w, size_t(op.a[0]) % w.held.size()); break;
+    case kFillTail: {
+      // A motif random sizes practically never produce: the block of the newest span is filled to its very last granule,
+      // the span at its end is shrunk, (sometimes) another span is released, and then memory is requested that the
+      // shrunk-away tail can hold - it must be found again (c09:released-memory-not-reused in do_alloc).
+      if (!inited || w.held.empty()) break;
+      const jitmodel::Block* b = w.model.block_of(w.held.back().rx);
+      if (!b) break;
+      size_t g = w.model.cfg.granularity;
+      uintptr_t end = b->rx + b->size, top = b->rx;
+      for (auto it = w.model.live.lower_bound(b->rx); it != w.model.live.end() && it->first < end; ++it) top = it->first + (it->second.size + g - 1) / g * g;
+      if (top <= b->rx || top >= end || end - top > (size_t(1) << 20)) break;
+      size_t tail = size_t(end - top), held_before = w.held.size();
+      do_alloc(w, tail, false);
+      if (w.held.size() != held_before + 1) break;
+      if (w.held.back().rx + tail == end) sim::count("c09.probe.block_filled_to_its_end");
+      if (tail > g) { Op sh; sh.kind = kShrink; sh.a[0] = int64_t(w.held.size() - 1); sh.a[1] = 5; sh.a[2] = op.a[1]; exec_op(w, sh); }
+      if ((op.a[2] & 1) && w.held.size() > 1) do_release(w, size_t(op.a[0]) % (w.held.size() - 1));
+      do_alloc(w, 1 + size_t(op.a[2] >> 1) % tail, false);
+      break;
+    }
     case kReallocSame: {
       if (w.held.empty()) break;
       size_t i = held_index(w, op.a[0]);
@@ -509,7 +556,7 @@ Plan generate_with(uint64_t seed, bool thorough, bool faults_allowed, bool long_
   for (size_t i = 0; i < nops; i++) {
     Op op;
     static const uint16_t ks[] = {kAlloc, kAlloc, kAlloc, kAlloc, kAlloc, kRelease, kRelease, kRelease, kShrink, kShrink, kQueryLive, kQueryForeign, kQueryReleased, kReleaseForeign,
-                                  kWrite, kWriteFn, kBadWrite, kStats, kReset, kRecreate, kReallocSame, kReallocSame, kReleaseAll};
+                                  kWrite, kWriteFn, kBadWrite, kStats, kReset, kRecreate, kReallocSame, kReallocSame, kReleaseAll, kFillTail};
     op.kind = r.pick(ks);
     if ((op.kind == kReset || op.kind == kRecreate || op.kind == kReleaseAll) && !r.chance(1, long_history ? 200 : 5)) op.kind = kAlloc;
     if (op.kind == kAlloc && live_estimate >= max_live) op.kind = kRelease;
